@@ -22,6 +22,7 @@ import CbiVerif.Drv.C03
 import CbiVerif.Drv.Include
 import CbiVerif.Drv.GitIgnore
 import CbiVerif.Drv.Reach
+import CbiVerif.Drv.WarnMsg
 /-! Native JSON-lines driver: one request object per line, one reply per line.
 Each area registers its ops in `CbiVerif/Drv/<Area>.lean`. -/
 open Lean
@@ -49,7 +50,8 @@ def handlerTable : List (String × (Json → Json)) :=
   CbiVerif.Drv.C03.handlers ++
   CbiVerif.Drv.Include.handlers ++
   CbiVerif.Drv.GitIgnore.handlers ++
-  CbiVerif.Drv.Reach.handlers
+  CbiVerif.Drv.Reach.handlers ++
+  CbiVerif.Drv.WarnMsg.handlers
 
 def handle (j : Json) : Json :=
   match j.getObjValAs? String "op" with
